@@ -19,13 +19,19 @@ package main
 import (
 	"bytes"
 	"context"
+	"encoding/json"
+	"flag"
 	"fmt"
 	"os"
+	"os/exec"
+	"os/signal"
 	"path/filepath"
 	"runtime"
 	"strconv"
+	"strings"
 	"sync"
 	"sync/atomic"
+	"syscall"
 	"time"
 
 	"github.com/hydraide/hydraide/app/core/hydra/swamp"
@@ -913,6 +919,125 @@ func summonCase(srv *rig.Server, idx int, r *common.Rng, second, destroying bool
 	return
 }
 
+// ---- Close with a failing storage flush (child process: RLIMIT_FSIZE is process-wide) ----------
+
+var childMode = flag.String("child", "", "internal: run a fault scenario in a child process")
+
+type closeFaultResult struct {
+	Name           string `json:"name"`
+	Faulted        bool   `json:"faulted"`
+	Second         bool   `json:"second_close_call"`
+	CloseHung      bool   `json:"close_hung"`
+	SummonHung     bool   `json:"summon_hung"`
+	SummonMs       int64  `json:"summon_ms"`
+	StillClosing   bool   `json:"old_instance_still_closing"`
+	FileSizeBefore int64  `json:"hyd_bytes_before"`
+}
+
+// closeFaultChild: swamps with unwritten records (write interval far away); Close() is called
+// while the file size limit of the process is 0, so every growing write of the final flush fails
+// with EFBIG (a real error from the kernel); then the limit is lifted and a new request summons
+// the name. Close must return and the request must not be left waiting for the close.
+func closeFaultChild(out string) {
+	rig.Quiet()
+	signal.Ignore(syscall.SIGXFSZ)
+	root := filepath.Join(out, "cfroot")
+	os.RemoveAll(root)
+	srv := rig.Start(root, true)
+	srv.Register("c17cf/*/*", false, 3600, 3600, 8192)
+	h := srv.Zeus.GetHydra()
+	ctx := context.Background()
+	enc := json.NewEncoder(os.Stdout)
+	big := strings.Repeat("v", 3000)
+	nhung := 0
+	for i := 0; i < 8; i++ {
+		nm := fmt.Sprintf("c17cf/r/s%d", i)
+		res := closeFaultResult{Name: nm, Faulted: i%4 != 3, Second: i%2 == 1}
+		set := func(prefix string, n int, val string) error {
+			kvs := []*hydrapb.KeyValuePair{}
+			for k := 0; k < n; k++ {
+				kvs = append(kvs, &hydrapb.KeyValuePair{Key: fmt.Sprintf("%s%d", prefix, k), StringVal: sp(val)})
+			}
+			_, err := srv.GW.Set(ctx, &hydrapb.SetRequest{Swamps: []*hydrapb.SwampRequest{{IslandID: 1, SwampName: nm, CreateIfNotExist: true, Overwrite: true, KeyValues: kvs}}})
+			return err
+		}
+		if err := set("a", 1+i%3, "first"); err != nil {
+			continue
+		}
+		obj, err := h.SummonSwamp(ctx, 1, rig.Name(nm))
+		if err != nil {
+			continue
+		}
+		// the file exists and its writer is open; then more records arrive and stay unwritten
+		// (small ones stay in the block buffer, i >= 4: big ones that need block writes)
+		obj.BeginVigil()
+		obj.WriteTreasuresToFilesystem()
+		obj.CeaseVigil()
+		val := "second"
+		if i >= 4 {
+			val = big
+		}
+		if err := set("b", 1+i, val); err != nil {
+			continue
+		}
+		var old syscall.Rlimit
+		syscall.Getrlimit(syscall.RLIMIT_FSIZE, &old)
+		if res.Faulted {
+			syscall.Setrlimit(syscall.RLIMIT_FSIZE, &syscall.Rlimit{Cur: 0, Max: old.Max})
+		}
+		closed := make(chan struct{})
+		go func() {
+			obj.Close() // what the idle-close listener and GracefulStop call
+			if res.Second {
+				obj.Close() // the retry of a caller that saw the failure
+			}
+			close(closed)
+		}()
+		select {
+		case <-closed:
+		case <-time.After(5 * time.Second):
+			res.CloseHung = true
+		}
+		syscall.Setrlimit(syscall.RLIMIT_FSIZE, &old)
+		t0 := time.Now()
+		got := make(chan struct{})
+		go func() { h.SummonSwamp(ctx, 1, rig.Name(nm)); close(got) }()
+		select {
+		case <-got:
+		case <-time.After(4 * time.Second):
+			res.SummonHung = true
+		}
+		res.SummonMs = time.Since(t0).Milliseconds()
+		res.StillClosing = obj.IsClosing() && h.CountActiveSwamps() > 0
+		enc.Encode(res)
+		if res.SummonHung || res.CloseHung {
+			nhung++
+			if nhung >= 2 {
+				break // enough evidence; every further one costs seconds
+			}
+		}
+	}
+	os.Exit(0)
+}
+
+func runCloseFaultChild(out string) ([]closeFaultResult, error) {
+	self, err := os.Executable()
+	if err != nil {
+		return nil, err
+	}
+	cmd := exec.Command(self, "--child", "closefault", "--out", filepath.Join(out, "child"))
+	cmd.Stderr = nil
+	ob, err := cmd.Output()
+	var rs []closeFaultResult
+	for _, line := range strings.Split(string(ob), "\n") {
+		var r closeFaultResult
+		if json.Unmarshal([]byte(line), &r) == nil && r.Name != "" {
+			rs = append(rs, r)
+		}
+	}
+	return rs, err
+}
+
 func pollProbe(n int) (hung bool) {
 	so := safeops.New()
 	for i := 0; i < n; i++ {
@@ -944,6 +1069,10 @@ func boolList(bs []bool) string {
 
 func main() {
 	a := common.ParseArgs()
+	if *childMode == "closefault" {
+		closeFaultChild(a.Out)
+		return
+	}
 	run := common.NewRun(a, "C17", "HV.Conc.Vigil")
 	run.Shard = 200
 	run.Meta.Rule = "forced: a schedule of thread-release tokens over W waiters and N operations of one real vigil, executed through the hook points and replayed through Conc/Vigil.v; non-trivial = some waiter was parked between its emptiness check and cond.Wait (the lost-wake-up window) at least once; stress/destroy/poll cases are non-trivial when at least one operation was in flight when the wait started"
@@ -1159,6 +1288,19 @@ func main() {
 	}
 	srv.Stop()
 	os.RemoveAll(root)
+
+	// --- 3c. Close while the final flush fails (child process)
+	cfs, cferr := runCloseFaultChild(a.Out)
+	if len(cfs) == 0 {
+		run.Meta.Extra["closefault_child_error"] = fmt.Sprint(cferr)
+	}
+	for _, r := range cfs {
+		run.Add(common.App("KCloseFault", common.Bool(r.Faulted), common.Bool(r.CloseHung), common.Bool(r.SummonHung)),
+			map[string]interface{}{"kind": "close-with-failing-flush", "swamp": r.Name, "file_size_limit_0_during_close": r.Faulted, "close_called_twice": r.Second,
+				"close_did_not_return_in_5s": r.CloseHung, "later_summon_did_not_return_in_4s": r.SummonHung, "later_summon_ms": r.SummonMs,
+				"old_instance_still_in_the_map_as_closing": r.StillClosing}, r.Faulted)
+		run.Hist("close_with_failing_flush")
+	}
 
 	// --- 4. polls
 	np := 20
